@@ -19,6 +19,12 @@ CLAIMED = {
         note="Does not decide that tokens concatenate to the rendered text or that positions are contiguous (run-time slice arithmetic). Patterns the stdlib regex parser cannot read are over-approximated or 'unknown' (counted, capped). " + TRUST,
         design_ref="DESIGN.md §3 C01",
     ),
+    "C02": dict(
+        technique="static analysis: def-use identity flow of the token sequence through the parse entry chain; symbolic interval tiling of the file segment's children in root_parse (split points identified by reaching definitions, path facts for empty remainders); must-pass funnel of iter_unparsables into PRS errors with traversal-shape check of every override; symbolic bound comparison of UnparsableSegment child results in the greedy arms",
+        text="Decides (partial claim) that the lexed tokens reach root_parse whole; that every file segment root_parse returns tiles its input by construction (given that MatchResult.apply covers matched_slice); that the root match is limited to the code prefix; that every unparsable node yields a PRS error and no iter_unparsables override hides one; that node construction keeps all children / copies raw and position; that a greedy give-up never lets an unparsable child reach past its parent and never claims look-ahead tokens without an UnparsableSegment.",
+        note="Does not decide MatchResult.apply's loop, append/wrap arithmetic or the slices returned by the ~20 match implementations (value-level): equality of tree leaves and lexed tokens as a whole is NOT decided; Rust parser path not analysed. C01 R01b decides the lexer-side filter. " + TRUST,
+        design_ref="DESIGN.md §9.5",
+    ),
     "C03": dict(
         technique="static analysis: modular abstract interpretation (finite sets of net indents) over the expanded grammar graph of every dialect and every assignment of the indentation keys; def-use origin labelling of the inserts on every return of Sequence.match / Bracketed.match / resolve_bracket, combined with a grammar-graph reachability check per partial return",
         text="Decides the 'indentation balance returns to zero' clause in two halves. Grammars: for every segment class reachable in each of the 28 bundled dialects and every "
@@ -197,6 +203,12 @@ CLAIMED = {
         note="Does not decide equality with str.format for every string (!conv, attribute/index fields), templated offsets, or style coverage. Fixed: R09a fired three times on the original rewrite regex (fadf47b). " + TRUST,
         design_ref="DESIGN.md §3 C09",
     ),
+    "C20": dict(
+        technique="static analysis: path-sensitive propositional gate (PathFacts) at every IgnoreMask construction site found tree-wide; def-use sibling agreement of the construction arguments; rolling-filter chain and must-pass marking analysis of the matchers; flag-based 'expansion or raw reference' proof in _parse_noqa; reader/writer agreement on the None encoding of 'all rules'",
+        text="Decides (partial claim) that no mask exists when noqa is disabled without an except-list; that all construction sites read directives with the same restricted reference map in source space; that the mask is applied exactly under filter_ignore, every directive is consulted by exactly one matcher, hiding marks the directive and unused warnings are exactly 'not used'; that unmatched references (PRS/LXR/TMP) stay matchable; that 'applies to every rule' is read the way it is written.",
+        note="Does not decide the algebra over line numbers, ranges and rule sets (which directive covers which line, ordering of range directives, glob matching). Fixed: R20e, the range matcher read an empty rule list as 'all rules' (5046079). " + TRUST,
+        design_ref="DESIGN.md §9.5",
+    ),
     "C21": dict(
         technique="static analysis: element-provenance of the crawl receiver (def-use through wrappers, filters and helper returns), dominance of tree rebinding / apply_fixes by the fix flag, who-may-write table over segment fields and in-place mutators derived from the segment classes, def-use shape of RuleSet.get_rulepack / _expand_rule_refs, closed tables of rule-instance state and RS-state over rule code",
         text="Decides independence in lint mode by construction: only members of rule_pack.rules are crawled and only their results (plus noqa parse errors) are returned, each attributed to the running rule; every rule is handed the tree that was passed in unless fix is set; segment fields are written only in core/parser/segments and at reviewed clone/fix sites; rule objects, rule classes and rule helper modules keep no state between evaluations beyond reviewed memo/scratch rows. Decides the structural half of selection: instantiated codes = register codes in expand(allow-list) and not in expand(deny-list), one expander over one reference map that is also the pack's noqa map, keys wired to rules/exclude_rules.",
@@ -230,10 +242,8 @@ CLAIMED = {
 }
 
 NOT_APPLICABLE = {
-    "C02": "equality of two run-time token sequences through index arithmetic of ~20 match implementations; no structural clause that is both necessary and non-brittle (DESIGN §5)",
     "C07": "tiling/bounds/text-equality of slice maps are relations between run-time integers and strings; no static structural footprint (DESIGN §5)",
     "C12": "token gluing depends on adjacent token texts and each dialect's ordered regex table; needs language-level reasoning over 28 lexers (DESIGN §5)",
     "C16": "query-result equivalence under rewriting needs execution or a SQL semantics; no static counterpart in reach (DESIGN §5)",
     "C17": "idempotence is a fixpoint property of all enabled rules over run-time trees; loop safeguards exist by shape but do not imply it (DESIGN §5)",
-    "C20": "the noqa algebra over lines, ranges and rule sets is value-level; apt technique is small-scope enumeration, a different family (DESIGN §5)",
 }
